@@ -58,6 +58,12 @@ ASSUME = [
 ]
 
 
+QUICK = {"valid": 24, "sentences": 120, "mutations": 400}
+THOROUGH = {"valid": 300, "sentences": 1500, "mutations": 6000}
+QUICK_C09 = {"valid": 8, "sentences": 150, "mutations": 500}
+THOROUGH_C09 = {"valid": 60, "sentences": 3000, "mutations": 12000}
+
+
 def _coq_obs(syn: Dict[str, Any], tid: Dict[str, int], ntypes: int) -> Optional[str]:
     if syn["out"] == "accept":
         return f"(0, 0, 0, {clist(str(x) for x in syn['reds'])})"
